@@ -21,6 +21,7 @@
 package ipv6
 
 import (
+	"math"
 	tcpip "github.com/brewlin/net-protocol/protocol"
 	"github.com/brewlin/net-protocol/pkg/buffer"
 	"github.com/brewlin/net-protocol/protocol/header"
@@ -85,6 +86,11 @@ func (e *endpoint) MaxHeaderLength() uint16 {
 
 // WritePacket writes a packet to the given destination address and protocol.
 func (e *endpoint) WritePacket(r *stack.Route, hdr buffer.Prependable, payload buffer.VectorisedView, protocol tcpip.TransportProtocolNumber, ttl uint8) *tcpip.Error {
+	// The payload length field is 16 bits wide: refuse what cannot be described
+	// instead of emitting a packet with a wrapped length.
+	if hdr.UsedLength()+payload.Size() > math.MaxUint16 {
+		return tcpip.ErrMessageTooLong
+	}
 	length := uint16(hdr.UsedLength() + payload.Size())
 	ip := header.IPv6(hdr.Prepend(header.IPv6MinimumSize))
 	ip.Encode(&header.IPv6Fields{
